@@ -207,7 +207,7 @@ Theorem dsge_read_inside k st n l :
   exists v, nth_error l n = Some v /\
             dsge_read k st = (Ok v, mkSt (st_src st) (st_exp st) (tset (st_pos st) k (S n)) (st_dna st) (st_alts st)).
 Proof.
-  intros Hp Hd Hn. unfold dsge_read. rewrite Hp, Hd.
+  intros Hp Hd Hn. unfold dsge_read, pos_of. rewrite Hp, Hd.
   assert (E : extend_genes (S n) (st_src st) l n = Ok (l, st_src st)).
   { simpl. apply Nat.ltb_lt in Hn. rewrite Hn. reflexivity. }
   rewrite E. destruct (nth_error l n) as [v|] eqn:En; [|apply nth_error_None in En; lia].
